@@ -4,6 +4,8 @@ import obl_phonetic
 
 
 def run(c):
+    import clauses
+    c.only_clauses = clauses.OWN["C17"]
     obl_phonetic.obl_split(c, 4 if c.tier == "quick" else 5, budget_s=900)
     if A.validate_assembly_concrete(c):
         ct = A.conv_table_for([p for w in A.WRAPPERS_QUICK for p in w])
